@@ -2,7 +2,7 @@
    the operation/result vocabulary shared by all back-ends, and the reference
    back-end "a set of integers" (membership function N -> bool).
    Definitions only; proofs live in *Proofs.v. *)
-From Coq Require Export List NArith Bool Lia.
+From Coq Require Export List NArith Arith Bool Lia.
 Export ListNotations.
 Local Open Scope N_scope.
 
